@@ -557,6 +557,8 @@ package fit
 //@   loop 2 dispatches [each-message-inspected] getEncodeMesgDef
 //@   loop 2 dispatches [each-field-set-merged] loop:3
 //@   loop 3 dispatches [each-field-entered] mapupdate
+//@@ the union is collected in a map of its own for every slice (made inside the loop over the slice's messages)
+//@   loop 3 dispatches [union-map-per-slice] mapupdate freshmap:1
 //@   requires e.w != nil
 //@   ensures [append] wpos(e.w) >= old(wpos(e.w)) && (forall k in 0..old(wpos(e.w)) :: outb(e.w, k) == old(outb(e.w, k)))
 //@   assigns wpos(e.w), outb(e.w, *)
@@ -786,6 +788,11 @@ package fit
 //@   ensures [progress] d.bytes.n >= old(d.bytes.n) && d.bytes.limit == old(d.bytes.limit)
 //@   ensures [framepos] framepos(d) == old(framepos(d))
 //@   ensures [monotone] pos(d.r) >= old(pos(d.r))
+//@@ C02/C13: a definition record occupies 5 bytes, 3 per field and, with the developer flag, 1 + 3 per developer field
+//@   slow def-length 90
+//@   ensures [def-length] {C02 C06 C13} err == nil ==> d.bytes.n == old(d.bytes.n)+5+3*int(res.fields)+ite(recordHeader&0x20 == 0x20, 1+3*len(res.devDataFieldDescs), 0)
+//@   loop 0 invariant [def-length] {C02 C06 C13} d.bytes.n == old(d.bytes.n)+5+3*int(dm.fields)
+//@   loop 1 invariant [def-length] {C02 C06 C13} d.bytes.n == old(d.bytes.n)+5+3*int(dm.fields)+1+3*len(dm.devDataFieldDescs)
 //@   assigns d.bytes.i, d.bytes.j, d.bytes.n, d.bytes.buf[..], d.tmp[..], pos(d.r), dyncrc16.GhostSum(d.crc)
 //@   loop 0 invariant [inv] inv_bytes(d) && inv_io(d) && d.bytes.limit == old(d.bytes.limit) && d.bytes.n >= old(d.bytes.n) && framepos(d) == old(framepos(d)) && pos(d.r) >= old(pos(d.r))
 //@   loop 0 invariant [dm] dm.localMsgType == recordHeader&0x0F && (isLE(dm.arch) || isBE(dm.arch)) && dm.globalMsgNum != MesgNumInvalid && len(dm.fieldDefs) == int(dm.fields) && fresh(dm) && dm != nil
